@@ -117,13 +117,6 @@ theorem client_lt (s : Sys) (h : IdsInv s) (oid : Nat) (hc : s.client oid ≠ .n
   intro hn
   exact hc (h.clientNone oid (by omega))
 
-/-- the state right after `issue` allocated the operation id and logged `issued` -/
-def issueBase (s : Sys) (op : OpSpec) : Sys :=
-  { s with nextOid := s.nextOid + 1, spec := setF s.spec s.nextOid op,
-           deadline := setF s.deadline s.nextOid (opDeadline s.clock op),
-           inflight := s.inflight + 1,
-           ev := s.ev ++ [.issued s.nextOid op.kind op.timeout s.clock] }
-
 theorem IdsInv_issue (s : Sys) (op : OpSpec) (h : IdsInv s) : IdsInv (issueBase s op) :=
   { accLt := fun it hi => Nat.lt_succ_of_lt (h.accLt it hi)
     accNodup := h.accNodup
